@@ -955,6 +955,41 @@ func (s *State) gobRestore(g gobVal, p PtrV, t types.Type) {
 	}
 }
 
+func gobEqual(a, b gobVal) bool {
+	if a.kind != b.kind {
+		return false
+	}
+	switch a.kind {
+	case 0:
+		ea, ok1 := a.scalar.(*Expr)
+		eb, ok2 := b.scalar.(*Expr)
+		if ok1 && ok2 {
+			return ea == eb
+		}
+		return a.scalar == b.scalar
+	case 1:
+		if len(a.list) != len(b.list) {
+			return false
+		}
+		for i := range a.list {
+			if !gobEqual(a.list[i], b.list[i]) {
+				return false
+			}
+		}
+		return true
+	}
+	if len(a.strct) != len(b.strct) {
+		return false
+	}
+	for k, v := range a.strct {
+		w, ok := b.strct[k]
+		if !ok || !gobEqual(v, w) {
+			return false
+		}
+	}
+	return true
+}
+
 type gobEnc struct{ w Value }
 type gobDec struct{ r Value }
 
@@ -966,8 +1001,17 @@ func regGob() {
 		iv := args[1].(IfaceV)
 		stats.stubs["gob.Encode:token"]++
 		tok := s.gobSnapshot(iv.V, iv.T)
-		gobTokens = append(gobTokens, tok)
-		id := len(gobTokens) - 1
+		id := -1
+		for i := range gobTokens {
+			if gobEqual(gobTokens[i], tok) {
+				id = i // content-addressed: equal values give equal bytes, as with real gob
+				break
+			}
+		}
+		if id < 0 {
+			gobTokens = append(gobTokens, tok)
+			id = len(gobTokens) - 1
+		}
 		cells := make([]Value, gobTokLen)
 		cells[0] = Const(8, 0x7e)
 		cells[1] = Const(8, uint64(id>>16))
